@@ -47,7 +47,8 @@ Qed.
 (* 2. the 25 passes, generically                                                                    *)
 Section Passes.
 Variables Rl Rg : text -> text -> Prop.
-Hypothesis HRl_up : forall v v', Rl v v' -> upper v = upper v'.
+Hypothesis HRl : forall v v', Rl v v' ->
+  knorm v = knorm v' /\ (forall s, nospace s = true -> text_eqb (upper v) s = text_eqb (upper v') s).
 Hypothesis Hmk : forall k k', Forall2 (crelG Rl Rg) k k' -> Rg (text_of_list k) (text_of_list k').
 Notation R := (crelG Rl Rg).
 Notation PREL := (prel Rl Rg).
@@ -93,31 +94,31 @@ Lemma prel_operator : PREL (group_driver p_operator).
 Proof.
   apply (prel_ext Rl Rg (group_driver p_operator_safe)).
   - intros n. symmetry. apply operator_driver_eq.
-  - apply prel_driver, pinv_operator_safe, HRl_up.
+  - apply prel_driver. apply (pinv_operator_safe Rl Rg HRl).
 Qed.
 
 Lemma prel_comments : PREL (recurse_pass [CComment] f_comments).
-Proof. apply prel_recurse. exact (f_comments_rel Rl Rg HRl_up Hmk (TOne T_Comment) CComment). Qed.
+Proof. apply prel_recurse. exact (f_comments_rel Rl Rg HRl Hmk (TOne T_Comment) CComment). Qed.
 Lemma prel_over : PREL (recurse_pass [COver] f_over).
-Proof. apply prel_recurse. exact (f_over_rel Rl Rg HRl_up Hmk (m_open COver) [CParenthesis] (TOne T_Name) COver). Qed.
+Proof. apply prel_recurse. exact (f_over_rel Rl Rg HRl Hmk (m_open COver) [CParenthesis] (TOne T_Name) COver). Qed.
 Lemma prel_where : PREL (recurse_pass [CWhere] f_where).
-Proof. apply prel_recurse. exact (f_where_rel Rl Rg HRl_up Hmk (m_open CWhere) (m_close CWhere) CWhere). Qed.
+Proof. apply prel_recurse. exact (f_where_rel Rl Rg HRl Hmk (m_open CWhere) (m_close CWhere) CWhere). Qed.
 Lemma prel_identifier : PREL (recurse_pass [CIdentifier] f_identifier).
-Proof. apply prel_recurse. exact (f_identifier_rel Rl Rg HRl_up Hmk (TMany [T_Symbol; T_Name]) CIdentifier). Qed.
+Proof. apply prel_recurse. exact (f_identifier_rel Rl Rg HRl Hmk (TMany [T_Symbol; T_Name]) CIdentifier). Qed.
 Lemma prel_order : PREL (recurse_pass [CIdentifier] f_order).
-Proof. apply prel_recurse. exact (f_order_rel Rl Rg HRl_up Hmk (TOne T_Order) [CIdentifier] (TOne T_Number) CIdentifier). Qed.
+Proof. apply prel_recurse. exact (f_order_rel Rl Rg HRl Hmk (TOne T_Order) [CIdentifier] (TOne T_Number) CIdentifier). Qed.
 Lemma prel_aliased : PREL (recurse_pass [] f_aliased).
 Proof.
   apply prel_recurse.
-  exact (f_aliased_rel Rl Rg HRl_up Hmk [CParenthesis; CFunction; CCase; CIdentifier; COperation; CComparison]
+  exact (f_aliased_rel Rl Rg HRl Hmk [CParenthesis; CFunction; CCase; CIdentifier; COperation; CComparison]
                        (TOne T_Number) CIdentifier CIdentifier true).
 Qed.
 Lemma prel_align : PREL (recurse_pass [] f_align_comments).
-Proof. apply prel_recurse. exact (f_align_comments_rel Rl Rg HRl_up Hmk [CComment] CTokenList CTokenList true). Qed.
+Proof. apply prel_recurse. exact (f_align_comments_rel Rl Rg HRl Hmk [CComment] CTokenList CTokenList true). Qed.
 Lemma prel_values : PREL group_values.
 Proof.
   intros n n' H.
-  exact (group_values_rel Rl Rg HRl_up Hmk [(T_Keyword, Some [s_VALUES])] CParenthesis CValues true n n' H).
+  exact (group_values_rel Rl Rg HRl Hmk [(T_Keyword, Some [s_VALUES])] CParenthesis CValues true n n' H).
 Qed.
 
 (* group_functions: under the hypotheses on the three value tests *)
@@ -128,7 +129,7 @@ Definition fn_guard : Prop :=
 Lemma prel_functions : fn_guard -> PREL (recurse_pass [CFunction] f_functions).
 Proof.
   intros (V1 & V2 & V3). apply prel_recurse.
-  exact (f_functions_rel Rl Rg HRl_up Hmk s_CREATE s_TABLE s_AS (TOne T_Name) CParenthesis COver CFunction
+  exact (f_functions_rel Rl Rg HRl Hmk s_CREATE s_TABLE s_AS (TOne T_Name) CParenthesis COver CFunction
                          V1 V2 V3).
 Qed.
 
@@ -203,6 +204,13 @@ Lemma CR_refl v : CR v v.
 Proof. induction v; constructor; auto using Rcase_refl. Qed.
 Lemma CR_upper v v' : CR v v' -> upper v = upper v'.
 Proof. apply cur_Rcase_upper. Qed.
+Lemma CR_kn v v' : CR v v' -> knorm v = knorm v'.
+Proof. intros H. unfold knorm. rewrite (CR_upper _ _ H). reflexivity. Qed.
+Lemma CR_ue v v' s : CR v v' -> nospace s = true -> text_eqb (upper v) s = text_eqb (upper v') s.
+Proof. intros H _. rewrite (CR_upper _ _ H). reflexivity. Qed.
+Lemma CR_rl v v' : CR v v' ->
+  knorm v = knorm v' /\ (forall s, nospace s = true -> text_eqb (upper v) s = text_eqb (upper v') s).
+Proof. intros H. split; [apply CR_kn, H | intros s; apply CR_ue, H]. Qed.
 Lemma CR_length v v' : CR v v' -> length v = length v'.
 Proof. induction 1; cbn [length]; congruence. Qed.
 Lemma CR_sym v v' : CR v v' -> CR v' v.
@@ -311,6 +319,13 @@ Qed.
 
 Lemma RlA_upper v v' : RlA v v' -> upper v = upper v'.
 Proof. intros [H _]. apply CR_upper, H. Qed.
+Lemma RlA_kn v v' : RlA v v' -> knorm v = knorm v'.
+Proof. intros [H _]. apply CR_kn, H. Qed.
+Lemma RlA_ue v v' s : RlA v v' -> nospace s = true -> text_eqb (upper v) s = text_eqb (upper v') s.
+Proof. intros [H _]. apply CR_ue, H. Qed.
+Lemma RlA_rl v v' : RlA v v' ->
+  knorm v = knorm v' /\ (forall s, nospace s = true -> text_eqb (upper v) s = text_eqb (upper v') s).
+Proof. intros [H _]. apply CR_rl, H. Qed.
 
 (* related nodes agree on the three value tests of group_functions *)
 Lemma nvalue_upper_as n n' : crel_as n n' -> upper (nvalue n) = upper (nvalue n').
@@ -404,29 +419,29 @@ Qed.
 (* ================================================================================================ *)
 (* 4. grouping.group                                                                                *)
 Theorem group_case_rel : forall n n', crel_as n n' -> rres crel_as (group n) (group n').
-Proof. exact (group_prel RlA RgA RlA_upper Hmk_as fn_guard_as). Qed.
+Proof. exact (group_prel RlA RgA RlA_rl Hmk_as fn_guard_as). Qed.
 
 Theorem group_upto_case_rel k : forall n n', crel_as n n' -> rres crel_as (group_upto k n) (group_upto k n').
-Proof. exact (group_upto_prel RlA RgA RlA_upper Hmk_as k fn_guard_as). Qed.
+Proof. exact (group_upto_prel RlA RgA RlA_rl Hmk_as k fn_guard_as). Qed.
 
 (* WITHOUT ANY GUARD (since the fix of C11-as-case in /repo): all 25 passes *)
 Theorem group_rel : forall n n', crel n n' -> rres crel (group n) (group n').
-Proof. exact (group_prel CR CR CR_upper Hmk_crel fn_guard_crel). Qed.
+Proof. exact (group_prel CR CR CR_rl Hmk_crel fn_guard_crel). Qed.
 
 Theorem group_upto_rel k : forall n n', crel n n' -> rres crel (group_upto k n) (group_upto k n').
-Proof. exact (group_upto_prel CR CR CR_upper Hmk_crel k fn_guard_crel). Qed.
+Proof. exact (group_upto_prel CR CR CR_rl Hmk_crel k fn_guard_crel). Qed.
 
 (* without the guard: up to (not including) group_functions, and from the pass after it on *)
 Theorem group_upto8_case_rel k : k <= 8 ->
   forall n n', crel n n' -> rres crel (group_upto k n) (group_upto k n').
-Proof. intros Hk. exact (group_upto8_prel CR CR CR_upper Hmk_crel k Hk). Qed.
+Proof. intros Hk. exact (group_upto8_prel CR CR CR_rl Hmk_crel k Hk). Qed.
 
 Theorem group_rest_case_rel :
   forall n n', crel n n' -> rres crel (run_passes (skipn 9 passes) n) (run_passes (skipn 9 passes) n').
-Proof. exact (group_after_functions_prel CR CR CR_upper Hmk_crel). Qed.
+Proof. exact (group_after_functions_prel CR CR CR_rl Hmk_crel). Qed.
 
 Theorem passes_but_functions_case : Forall (prel CR CR) (firstn 8 passes ++ skipn 9 passes).
-Proof. exact (passes_but_functions CR CR CR_upper Hmk_crel). Qed.
+Proof. exact (passes_but_functions CR CR CR_rl Hmk_crel). Qed.
 
 (* the form asked for *)
 Theorem C11_group_case : forall n n', crel n n' -> as_guard n n' ->
@@ -454,7 +469,7 @@ Qed.
 
 (* statement types *)
 Theorem C11_get_type_case : forall n n', crel n n' -> get_type n = get_type n'.
-Proof. exact (get_type_rel CR CR CR_upper). Qed.
+Proof. exact (get_type_rel CR CR CR_rl). Qed.
 
 (* ================================================================================================ *)
 (* 5. the splitter, pointwise: token streams related token by token are split at the same places      *)
